@@ -346,3 +346,232 @@ def check_inverse_permutation(ctx: Ctx, modules=(EM, TR, IMG), rule="INVPERM"):
                f"`{U(bad[0][1])[:70] if bad else ''}` indexes values that are already in sorted order with the sort permutation `{bad[0][2] if bad else ''}`: that applies the permutation twice "
                "instead of inverting it, so each value lands at another droplet's index (correct only when the permutation is its own inverse, e.g. two droplets or reversed input)")
     return n
+
+
+# ------------------------------------------------------------------------------------------ round 9 (small changes)
+def check_axis_loop_guards(ctx: Ctx, rule="MERGE"):
+    """every periodic axis is examined for clusters to merge: inside the loop over the periodic axes no condition that does not
+    depend on the axis may skip the work of an iteration (a test of the faces of one fixed axis skips the other axes)"""
+    m = ctx.model
+    q = f"{IMG}._locate_droplets_in_mask_cartesian"
+    fi = m.func(q)
+    fv = view(m, fi)
+    loops = [s for s in fv.statements() if isinstance(s, ast.For) and "periodic" in U(fv.expand(s.iter, s, allow_mutated=True)) and isinstance(s.target, ast.Name)]
+    if not loops:
+        ctx.undecided(rule, q + ":axis-guards", fi, "loop over the periodic axes not found")
+        return 0
+    bad = None
+    for lp in loops:
+        axv = lp.target.id
+        # names that vary with the axis: the loop variable and everything assigned from it inside the loop
+        variant = {axv}
+        for _ in range(4):
+            for s in ast.walk(lp):
+                if isinstance(s, ast.Assign) and names_in(s.value) & variant:
+                    for t in s.targets:
+                        variant |= {n.id for n in ast.walk(t) if isinstance(n, ast.Name)}
+                elif isinstance(s, ast.For) and names_in(s.iter) & variant:
+                    variant |= {n.id for n in ast.walk(s.target) if isinstance(n, ast.Name)}
+        for s in lp.body:
+            if isinstance(s, ast.If) and not (names_in(s.test) & variant):
+                inner = [x for b in (s.body, s.orelse) for y in b for x in ast.walk(y)]
+                if any(isinstance(x, (ast.For, ast.While, ast.Continue, ast.Break)) for x in inner):
+                    bad = bad or s
+    ctx.decide(bad is None, rule, q + ":axis-guards", (fi, bad) if bad is not None else fi, "no axis-independent condition skips a periodic axis",
+               f"`if {U(bad.test)[:70] if bad is not None else ''}` decides inside the loop over the periodic axes whether an axis is examined at all, but does not depend on the axis: clusters cut by "
+               "the boundary of another axis are not merged when the condition fails (the two parts stay separate droplets; the duplicate filter then drops one of them)")
+    return 1
+
+
+def check_fixed_levels(ctx: Ctx, rule="LEVELS"):
+    """with adjust_values=False the intensity levels are not fit parameters: the branch that appends them to the parameter vector
+    must be unreachable then"""
+    from ..astutil import truth_under
+
+    m = ctx.model
+    q = f"{IMG}.refine_droplet"
+    fi = m.func(q)
+    fv = view(m, fi)
+    tests = [s for s in fv.statements() if isinstance(s, ast.If) and "adjust_values" in names_in(fv.expand(s.test, s, allow_mutated=True))]
+    if not tests:
+        ctx.undecided(rule, q + ":fixed-levels", fi, "no branch on adjust_values")
+        return 0
+    bad = None
+    for s in tests:
+        t = fv.expand(s.test, s, allow_mutated=True)
+        v = truth_under(t, [("adjust_values", False)])
+        # the body of the branch packs extra slots into the start vector (np.r_[..., vmin, vrng]) — the fitting branch
+        fits = any(isinstance(x, ast.Subscript) and U(x.value) == "np.r_" for y in s.body for x in ast.walk(y))
+        if fits and v is not False:
+            bad = bad or s
+    ctx.decide(bad is None, rule, q + ":fixed-levels", (fi, bad) if bad is not None else fi, "the intensity levels are fitted only when adjust_values is set",
+               f"`if {U(bad.test)[:60] if bad is not None else ''}` can take the level-fitting branch although adjust_values is False: the levels the caller fixed are fitted as free parameters, "
+               "so the result is not the minimiser of the deviation from the image at the given levels (it can be worse than the candidate)")
+    return 1
+
+
+def check_setter_total(ctx: Ctx, qual, field, rule="WIRING"):
+    """a property setter stores the new value on every path: no early return may skip the store"""
+    m = ctx.model
+    fi = m.func(qual)
+    fv = view(m, fi)
+    stores = [s for s in fv.statements() if isinstance(s, (ast.Assign, ast.AugAssign)) and any(f"self.{field}" == U(t) or U(t).startswith(f"self.data['{field}']") or U(t).startswith(f'self.data["{field}"]')
+                                                                                            for t in (s.targets if isinstance(s, ast.Assign) else [s.target]))]
+    if not stores:
+        ctx.undecided(rule, qual + ":total", fi, f"no store of {field}")
+        return 0
+    rets = [n.stmt for n in fv.return_nodes() if n.stmt is not None]
+    early = [r for r in rets if isinstance(r, ast.Return) and not any(fv.dominates(s, r) for s in stores)]
+    ctx.decide(not early, rule, qual + ":total", (fi, early[0]) if early else fi, f"every path through the setter stores {field}",
+               "the setter can return without storing the new value (an 'unchanged' shortcut with a tolerance drops small changes): reading the quantity back does not return the value that was set")
+    return 1
+
+
+def check_text_file_modes(ctx: Ctx, quals, rule="IOAGREE"):
+    """result files are written from scratch: opening in append mode concatenates a second result to the first"""
+    m = ctx.model
+    n = 0
+    for q in quals:
+        if not m.has_func(q):
+            continue
+        fi = m.func(q)
+        for c in ast.walk(fi.node):
+            if isinstance(c, ast.Call) and ((isinstance(c.func, ast.Attribute) and c.func.attr == "open") or (isinstance(c.func, ast.Name) and c.func.id == "open")):
+                mode = kwarg(c, "mode")
+                pos = c.args[1:] if isinstance(c.func, ast.Name) else c.args
+                if mode is None and pos:
+                    mode = pos[0]
+                if isinstance(mode, ast.Constant) and isinstance(mode.value, str):
+                    n += 1
+                    okm = "a" not in mode.value and "+" not in mode.value
+                    ctx.decide(okm or "r" in mode.value, rule, f"{q}:mode", (fi, c), f"file opened with mode {mode.value!r}",
+                               f"the result file is opened with mode {mode.value!r}: when the file exists already the new result is appended to the old one and the file no longer reads back as the recorded data")
+    return n
+
+
+def check_serial_test(ctx: Ctx, quals, rule="PARMAP"):
+    """num_processes may be the string 'auto': the serial branch is chosen by an equality test, an order comparison raises"""
+    m = ctx.model
+    n = 0
+    for q in quals:
+        if not m.has_func(q):
+            continue
+        fi = m.func(q)
+        if "num_processes" not in fi.all_params:
+            continue
+        bad = None
+        for c in ast.walk(fi.node):
+            if isinstance(c, ast.Compare) and "num_processes" in names_in(c) and any(isinstance(o, (ast.Lt, ast.LtE, ast.Gt, ast.GtE)) for o in c.ops):
+                bad = bad or c
+        n += 1
+        ctx.decide(bad is None, rule, f"{q}:serial-test", (fi, bad) if bad is not None else fi, "the process count is only tested for equality",
+                   f"`{U(bad) if bad is not None else ''}` orders num_processes, which may be the documented string 'auto': TypeError for that setting only, so 'auto' no longer gives the result of the serial run")
+    return n
+
+
+def check_callee_once(ctx: Ctx, qual, callee_suffix, rule="PARMAP"):
+    """the serial arm applies the per-item function exactly once per item (a second call re-fits an object the first call has
+    already modified in place, the parallel arm fits copies once)"""
+    m = ctx.model
+    fi = m.func(qual)
+    worst = None
+    n_comp = 0
+    # the per-item function may be applied through a functools.partial bound to a local name
+    names = {callee_suffix}
+    for s_ in ast.walk(fi.node):
+        if isinstance(s_, (ast.Assign, ast.AnnAssign)) and getattr(s_, "value", None) is not None and isinstance(s_.value, ast.Call) and (dotted(s_.value.func) or "").split(".")[-1] == "partial" \
+                and s_.value.args and (dotted(s_.value.args[0]) or "").split(".")[-1] == callee_suffix:
+            t_ = s_.targets[0] if isinstance(s_, ast.Assign) else s_.target
+            if isinstance(t_, ast.Name):
+                names.add(t_.id)
+    callee_suffix_names = names
+    for comp in ast.walk(fi.node):
+        if isinstance(comp, (ast.ListComp, ast.GeneratorExp)):
+            calls = [c for c in ast.walk(comp) if isinstance(c, ast.Call) and (dotted(c.func) or "").split(".")[-1] in callee_suffix_names]
+            if calls:
+                n_comp += 1
+                if len(calls) > 1:
+                    worst = worst or calls[1]
+    for lp in ast.walk(fi.node):
+        if isinstance(lp, ast.For):
+            calls = [c for s in lp.body for c in ast.walk(s) if isinstance(c, ast.Call) and (dotted(c.func) or "").split(".")[-1] in callee_suffix_names]
+            if calls:
+                n_comp += 1
+                if len(calls) > 1:
+                    worst = worst or calls[1]
+    if not n_comp:
+        return 0
+    ctx.decide(worst is None, rule, f"{qual}:once", (fi, worst) if worst is not None else fi, f"{callee_suffix} is applied once per item",
+               f"{callee_suffix} is applied twice to the same item in the serial arm: candidates that are refined in place are fitted a second time starting from the first result, the parallel arm "
+               "fits each (pickled) candidate once — the two settings return different droplets")
+    return 1
+
+
+def check_kwargs_reach_call(ctx: Ctx, qual, callee_suffix, rule="FORWARD"):
+    """`f(x, **kwargs)` receives the function's own keyword arguments: kwargs is not rebound before the call"""
+    m = ctx.model
+    fi = m.func(qual)
+    kw = fi.kwarg
+    if kw is None:
+        ctx.undecided(rule, f"{qual}:{callee_suffix}:kwargs", fi, "no **kwargs parameter")
+        return 0
+    fv = view(m, fi)
+    calls = [c for c in fv.calls() if (fv.callee(c) or dotted(c.func) or "").split(".")[-1] == callee_suffix and any(k.arg is None and isinstance(k.value, ast.Name) and k.value.id == kw for k in c.keywords)]
+    if not calls:
+        ctx.undecided(rule, f"{qual}:{callee_suffix}:kwargs", fi, f"no call {callee_suffix}(…, **{kw})")
+        return 0
+    from ..astutil import stmt_index
+    from .refine import _reaches
+
+    si = stmt_index(fv)
+    bad = None
+    for c in calls:
+        st = si.statement(c)
+        for s in fv.statements():
+            if isinstance(s, ast.Assign) and any(isinstance(t, ast.Name) and t.id == kw for t in s.targets) and s is not st and _reaches(fv, s, st):
+                bad = bad or s
+    ctx.decide(bad is None, rule, f"{qual}:{callee_suffix}:kwargs", (fi, bad) if bad is not None else fi, f"{callee_suffix} receives the caller's keyword arguments",
+               f"`{U(bad)[:50] if bad is not None else ''}` rebinds {kw} before {callee_suffix}(…, **{kw}) is called: the options of the caller (threshold, minimal_radius, …) are dropped and the defaults are used")
+    return 1
+
+
+def check_result_layout(ctx: Ctx, rule="CLASSSEL"):
+    """the emulsion returned by locate_droplets takes its layout from the droplets it holds: a dtype handed over from the
+    (spherical) candidates is stale once the droplets were converted or refined"""
+    m = ctx.model
+    q = f"{IMG}.locate_droplets"
+    fi = m.func(q)
+    fv = view(m, fi)
+    bad = None
+    n = 0
+    for st in fv.statements():
+        for c in ast.walk(st):
+            if isinstance(c, ast.Call) and (dotted(c.func) or "").split(".")[-1] == "Emulsion" and c.args:
+                n += 1
+                d = kwarg(c, "dtype")
+                # a layout taken from anything but the droplets handed over (first argument) is a second, possibly stale, source
+                if d is not None and not (isinstance(d, ast.Constant) and d.value is None) and not (names_in(d) & names_in(c.args[0])):
+                    bad = bad or st
+    if not n:
+        ctx.undecided(rule, q + ":result-layout", fi, "construction of the returned emulsion not found")
+        return 0
+    ctx.decide(bad is None, rule, q + ":result-layout", (fi, bad) if bad is not None else fi, "the returned emulsion derives its layout from its own droplets",
+               "the returned emulsion is given the dtype of the spherical candidates: after conversion or refinement its droplets have another layout, so the emulsion's dtype and the table formed from "
+               "it disagree (consistent appends of its own droplets are rejected)")
+    return 1
+
+
+def check_copy_filter_strict(ctx: Ctx, rule="COPYALL"):
+    m = ctx.model
+    q = f"{EM}.Emulsion.copy"
+    fi = m.func(q)
+    tests = [c for c in ast.walk(fi.node) if isinstance(c, ast.Compare) and "min_radius" in names_in(c) and len(c.ops) == 1]
+    if not tests:
+        ctx.undecided(rule, q + ":strict", fi, "no comparison with min_radius")
+        return 0
+    c = tests[0]
+    txt = U(c).replace(" ", "")
+    ok = (isinstance(c.ops[0], ast.Gt) and txt.endswith(">min_radius")) or (isinstance(c.ops[0], ast.Lt) and txt.startswith("min_radius<"))
+    ctx.decide(ok, rule, q + ":strict", (fi, c), "droplets with exactly min_radius are removed (radius > min_radius is kept)",
+               f"`{U(c)}` keeps droplets whose radius equals min_radius: copy(min_radius=0) is documented to drop vanished droplets, the copy differs from the list model [d for d in e if d.radius > min_radius]")
+    return 1
